@@ -33,6 +33,7 @@ const (
 	c07KnownFile = "/verif/.work/C07-known.txt"
 	c07KnownID   = "panic-unheard"
 	c07KnownID2  = "write-close-race"
+	c07KnownID3  = "foreach-panic-lost"
 	c07Far       = 1000000 // ticks: a context deadline that is never reached
 )
 
@@ -76,7 +77,7 @@ type c07Case struct {
 }
 
 func (c c07Case) ticks(n int) time.Duration {
-	if c.Zero {
+	if c.Zero && n < c07Far {
 		return 0
 	}
 	return time.Duration(n) * c07Tick
@@ -775,7 +776,26 @@ func (r *c07Run) judge(res kit.BubbleResult) (v kit.Verdict) {
 	} else {
 		v.NonTrivial = n >= w+1
 		if msg := r.disturbedOutcome(dist, cls); msg != "" {
-			return v.Failf("%s; history: %v returned@%v", msg, r.events, r.tret)
+			v = v.Failf("%s; history: %v returned@%v", msg, r.events, r.tret)
+			// Known finding 3: ForEach's select chooses at random between a pending
+			// panic and the closed collector. Both can be ready together only when the
+			// generator's panic owns onceChan (blocked in write, source still open) and
+			// a mapper panic (dropped by the CAS) has stopped executeMappers, before
+			// the caller reaches its select.
+			if c.Entry == "foreach" && r.out.kind == "ok" {
+				gen, mapr := false, false
+				for _, e := range dist {
+					if e.kind == "panic" && e.src == "generator" {
+						gen = true
+					} else if e.kind == "panic" {
+						mapr = true
+					}
+				}
+				if gen && mapr {
+					v.Known = c07KnownID3
+				}
+			}
+			return v
 		}
 		cls["outcome:"+r.outClass()] = true
 	}
